@@ -83,9 +83,11 @@ def _r1(chk, repo, conj):
     chk.add("C10-R1", f"{conj.qual}/other-target-stores", not other, "", "the target reaches the conjugate pair only through its constructor",
             f"a target is swapped into the sampler / existing pair outside the validating setter: {other}")
     vt = repo.method(conj, "validate_target")[1]
-    body = [_norm(s) for s in vt.body]
-    chk.add("C10-R1", f"{conj.qual}.validate_target", body == ["self._ensure_target_is_posterior()", "self._conjugatepair.validate_target()"], site(repo, vt),
-            "posterior check, then the pair's structural validation", f"validate_target is {body}", vt)
+    from .common import method_effects
+    eff = method_effects(repo, conj, vt)
+    ok = bool(eff) and all(e["kind"] in ("fall", "return") and e["calls"] == ["self._ensure_target_is_posterior()", "self._conjugatepair.validate_target()"] and not e["stores"] for e in eff)
+    chk.add("C10-R1", f"{conj.qual}.validate_target", ok, site(repo, vt),
+            "posterior check, then the pair's structural validation", f"validate_target does {eff}", vt)
     # the pairs
     for pair, fams in (("_GaussianGammaPair", "(Gaussian,GMRF)"), ("_RegularizedGaussianGammaPair", "(RegularizedGaussian,RegularizedGMRF)")):
         ci = repo.cls(f"{EXP}:{pair}")
@@ -402,9 +404,10 @@ def _r2(chk, repo, conj):
 def _r3(chk, repo):
     d = repo.cls("cuqi/experimental/mcmc/_direct.py:Direct")
     st = repo.method(d, "step")[1]
-    body = [_norm(s) for s in st.body]
-    chk.add("C10-R3", f"{d.qual}.step", body == ["self.current_point=self.target.sample()", "return1"], site(repo, st),
-            "current_point = target.sample()", f"Direct.step is {body}", st)
+    from .common import method_effects
+    eff = method_effects(repo, d, st)
+    ok = len(eff) == 1 and eff[0]["kind"] == "return" and eff[0]["ret"] == "1" and eff[0]["stores"] == {"self.current_point": "self.target.sample()"} and not eff[0]["calls"]
+    chk.add("C10-R3", f"{d.qual}.step", ok, site(repo, st), "current_point = target.sample()", f"Direct.step does {eff}", st)
 
 
 def _gamma_update(fn, count_expr) -> List[str]:
@@ -482,6 +485,7 @@ def _r4(chk, repo):
         pr.append(f"Gaussian.rank returns {rets}; logpdf normalises with `{'self.rank' if 'self.rank' in lpg else '?'}`")
     chk.add("C10-R4", f"{ga.qual}.@rank", not pr, site(repo, rp.getter if rp and rp.getter else ga.node), "Gaussian.rank is the count in Gaussian.logpdf's normalising constant", "; ".join(pr), None)
     step = repo.method(repo.cls(f"{EXP}:Conjugate"), "step")[1]
-    body = [_norm(s) for s in step.body]
-    chk.add("C10-R4", f"{EXP}:Conjugate.step", body == ["self.current_point=self._conjugatepair.sample()", "return1"], site(repo, step),
-            "current_point = pair.sample()", f"Conjugate.step is {body}", step)
+    from .common import method_effects
+    eff = method_effects(repo, repo.cls(f"{EXP}:Conjugate"), step)
+    ok = len(eff) == 1 and eff[0]["kind"] == "return" and eff[0]["ret"] == "1" and eff[0]["stores"] == {"self.current_point": "self._conjugatepair.sample()"} and not eff[0]["calls"]
+    chk.add("C10-R4", f"{EXP}:Conjugate.step", ok, site(repo, step), "current_point = pair.sample()", f"Conjugate.step does {eff}", step)
